@@ -61,7 +61,7 @@ var badRule = map[string]string{
 	"IO1Bad": "IO-1", "IO2Bad": "IO-2", "IO2BreakBad": "IO-2", "IO2EOFBad": "IO-2", "IO2WroteBad": "IO-2", "IO3Bad": "IO-3", "IO3LogBad": "IO-3",
 	"IO4Bad": "IO-4", "IO5Bad": "IO-5", "PRE1Bad": "PRE-1", "STK1Bad": "STK-1", "IO2CountAfterAdvanceBad": "IO-2",
 	"TOK3Bad": "TOK-3", "TOK2Bad": "TOK-2", "TOK2RetBad": "TOK-2", "RECBad": "REC-WHOLE", "PRE3Bad": "PRE-3", "CNT1Bad": "CNT-1", "CNT1CopyBad": "CNT-1",
-	"TOK1Bad": "TOK-1", "TOK1OffByOneBad": "TOK-1", "PRE2Bad": "PRE-2",
+	"TOK4Bad": "TOK-4", "TOK4BufBad": "TOK-4", "TOK1Bad": "TOK-1", "TOK1OffByOneBad": "TOK-1", "PRE2Bad": "PRE-2",
 }
 
 func run(c *props.Ctx) {
@@ -281,7 +281,7 @@ func run(c *props.Ctx) {
 				c.R.Control("IO", "control:good:"+name, controlFile, got, ob.Holds, "accepted idiom must stay silent "+why)
 			}
 		}
-		for _, rule := range []string{"IO-1", "IO-2", "IO-3", "IO-4", "IO-5", "PRE-1", "PRE-2", "PRE-3", "TOK-1", "TOK-2", "TOK-3", "CNT-1", "REC-WHOLE", "STK-1"} {
+		for _, rule := range []string{"IO-1", "IO-2", "IO-3", "IO-4", "IO-5", "PRE-1", "PRE-2", "PRE-3", "TOK-1", "TOK-2", "TOK-3", "TOK-4", "CNT-1", "REC-WHOLE", "STK-1"} {
 			if !seenBad[rule] {
 				c.R.Control(rule, "control:bad:missing", controlFile, ob.Holds, ob.Violation, "no positive control found for the rule")
 			}
@@ -305,6 +305,7 @@ func run(c *props.Ctx) {
 	c.R.Floor("PRE-2", 3)
 	c.R.Floor("TOK-1", 2)
 	c.R.Floor("TOK-2", 2)
+	c.R.Floor("TOK-4", 2)
 	c.R.Floor("CNT-1", 8)
 	if nPrims < 12 {
 		c.R.Failf("vacuity: only %d input-primitive call sites found in the five decoder packages (confirmed by hand: 4 Scan + 18 ReadFull/binary.Read + 2 gzip.NewReader)", nPrims)
